@@ -373,24 +373,63 @@ def pattern_data(amap_):
     return A, b, [aexpr_json(r) for r in amap_.results], real
 
 
+def vec_eval(amap_, cols):
+    """Evaluate an xDSL AffineMap on MANY points at once: cols = one int64 numpy array per dimension -> one array per result.
+    The expression TREE is xDSL's (parsed by xDSL); the arithmetic is numpy's floor division / modulo (= Python's // and %).
+    Every call is cross-checked against xDSL's own `AffineMap.eval` on the first, the last and a middle point."""
+    import numpy as np
+    from xdsl.ir.affine import AffineBinaryOpExpr, AffineBinaryOpKind, AffineConstantExpr, AffineDimExpr
+    n = len(cols[0]) if cols else 1
+
+    def ev(e):
+        if isinstance(e, AffineDimExpr):
+            return cols[e.position]
+        if isinstance(e, AffineConstantExpr):
+            return np.full(n, e.value, dtype=np.int64)
+        if isinstance(e, AffineBinaryOpExpr):
+            l, r = ev(e.lhs), ev(e.rhs)
+            if e.kind == AffineBinaryOpKind.Add:
+                return l + r
+            if e.kind == AffineBinaryOpKind.Mul:
+                return l * r
+            if e.kind == AffineBinaryOpKind.Mod:
+                return np.mod(l, r)
+            if e.kind == AffineBinaryOpKind.FloorDiv:
+                return np.floor_divide(l, r)
+            if e.kind == AffineBinaryOpKind.CeilDiv:
+                return -np.floor_divide(-l, r)
+        raise ValueError(f"affine expression {e}")
+    res = [ev(r) for r in amap_.results]
+    for k in sorted({0, n // 2, n - 1}) if n else []:
+        want = amap_.eval([int(c[k]) for c in cols], [])
+        assert [int(r[k]) for r in res] == [int(w) for w in want], f"vectorised evaluation of {amap_} differs from xDSL at point {k}"
+    return res
+
+
+def box_columns(bounds):
+    """the points of the iteration box in schedule order (last dimension fastest), one column per dimension"""
+    import numpy as np
+    if not bounds:
+        return []
+    grid = np.indices(bounds, dtype=np.int64).reshape(len(bounds), -1)
+    return [grid[k] for k in range(len(bounds))]
+
+
 def linear_flags(sch, bounds, strides):
     """per operand: is the real composed map (xDSL get_affine_map_in_bytes ∘ pattern) equal to sum x_i * stride_i at
     every point of the iteration box?  None if the box is too large to enumerate."""
     n = 1
     for b in bounds:
         n *= b
-    if n > 6000:
+    if n > 200000 or n == 0:
         return [None] * len(strides)
+    cols = box_columns(bounds)
     out = []
     for opnd, pat, st in zip(sch.operands, sch.patterns.data, strides):
-        lm = opnd.type.get_affine_map_in_bytes()
-        pm = pat.data
-        ok = True
-        for x in itertools.product(*[range(b) for b in bounds]):
-            if lm.eval(pm.eval(list(x), []), [])[0] != sum(xi * si for xi, si in zip(x, st)):
-                ok = False
-                break
-        out.append(ok)
+        idx = vec_eval(pat.data, cols)
+        addr = vec_eval(opnd.type.get_affine_map_in_bytes(), idx)[0]
+        lin = sum(c * si for c, si in zip(cols, st)) if cols else 0
+        out.append(bool((addr == lin).all()))
     return out
 
 
@@ -1484,23 +1523,21 @@ class C02(Prop):
         # the `offset` of a #tsl.tsl layout is part of the layout (element units) although TiledStridedLayoutAttr.get_affine_map
         # leaves it out; the streamed bytes are judged against the layout, so it is added here
         toff = s["ops"][i]["off"] * el if s["ops"][i].get("lkind") == "tsl" else 0
-        steps = []
-        linear = True
-        affine = True      # is the schedule pattern itself the affine map A x + b (its unit response) on the box?
+        import numpy as np
         st_i = impl_out["access"]["strides"][i]
         A_, b_ = s["ops"][i]["A"], s["ops"][i]["b"]
-        for o in itertools.product(*[range(b) for b in bounds[:nt]]):
-            st = set()
-            for p in itertools.product(*[range(b) for b in bounds[nt:]]):
-                x = list(o) + list(p)
-                idx = pm.eval(x, [])
-                if affine and list(idx) != [sum(c * xi for c, xi in zip(row, x)) + bb for row, bb in zip(A_, b_)]:
-                    affine = False
-                a = lm.eval(idx, [])[0] + toff
-                if a != sum(xi * si for xi, si in zip(x, st_i)):
-                    linear = False
-                st.update(range(a, a + el))
-            steps.append(st)
+        cols = box_columns(bounds)
+        idx = vec_eval(pm, cols)
+        # is the schedule pattern itself the affine map A x + b (its unit response) on the box?
+        affine = all(bool((r == sum(c * col for c, col in zip(row, cols)) + bb).all()) for r, row, bb in zip(idx, A_, b_))
+        addr = vec_eval(lm, idx)[0] + toff
+        linear = bool((addr == sum(col * si for col, si in zip(cols, st_i))).all())
+        nsteps = 1
+        for bd in bounds[:nt]:
+            nsteps *= bd
+        per = addr.reshape(nsteps, -1)
+        ar = np.arange(el, dtype=np.int64)
+        steps = [set((row[:, None] + ar).ravel().tolist()) for row in per]
         return steps, linear, affine
 
     _cache = {}
@@ -1638,8 +1675,10 @@ class C02(Prop):
         el = impl_out["access"]["els"][i]
         if s is None:
             return None
-        if s * b < 8 or s != el:
-            return "D29"       # innermost relevant dimension is not bank-contiguous
+        if s * b < 8:
+            return "D29"       # the warning path: less than one bank in the innermost relevant dimension
+        if s != el:
+            return "DC02d"     # not contiguous although >= one bank: refused since fix FC02a (a hit is a regression)
         acc, geo = impl_out["access"], impl_out["geo"]
         want = el
         for bd, r in zip(acc["bounds"], geo["relevant"][i]):
